@@ -149,6 +149,11 @@ def run(ctx):
                         cases.append((fn, (pvk, table, "1234", pan, off, ln, "F")))
             for n in range(0, 41):
                 cases.append((fn, (rng.randbytes(n), table, "1234", pan, 0, 12, "F")))
+            for pl in (0, 3, 11, 12, 15, 16, 19):
+                span = rnd(rng, pl)
+                for off in sorted({0, 1, pl, pl + 1}):
+                    for ln in sorted({0, 1, max(0, pl - off), pl - off + 1, max(0, 16 - off), 16, 17}):
+                        cases.append((fn, (pvk, table, "1234", span, off, ln, "F")))
         # MACs and ciphers: every key / iv / data length 0..40
         for n in range(0, 41):
             cases.append(("generate_cbc_mac", (rng.randbytes(n), b"abc", 1, None, False)))
@@ -172,6 +177,9 @@ def run(ctx):
     impl_only = [c for c in cases if any(isinstance(x, int) and not isinstance(x, bool) and x < 0 for x in c[1])
                  and c[0] != "apply_key_variant"]
     cases = [c for c in cases if c not in impl_only]
+    from harness import gens
+    cases = fw.with_history(rng, cases, gens.variants_generic(rng), fraction=0.03, limit=60)
+    cases = [c for c in cases if not any(isinstance(x, int) and not isinstance(x, bool) and x < 0 for x in c[1]) or c[0] == "apply_key_variant"]
     res = fw.call_result(
         cases, check_impl=check_impl, nontrivial=lambda fn, a, o_: True,
         rule="for each text parameter of each function: lengths around each bound x hostile alphabet (full-width, Arabic-Indic, "
